@@ -281,6 +281,12 @@ func runC04(c *Ctx) {
 	guardDone := guardOn(c)
 	defer guardDone()
 	nBranch := 1 + g.Weighted(5, 3, 1)
+	// tees of tees (see below) need room: a common parent built in steps and
+	// at least one branch private to each of the two loggers
+	forkWanted := g.Chance(6)
+	if forkWanted {
+		nBranch = 3 + g.Draw(3)
+	}
 	table := map[string]func(u *url.URL) (zap.Sink, error){}
 	useSimScheme(table)
 	clk := zsim.NewSimClock(r, drawEpoch(g))
@@ -371,13 +377,17 @@ func runC04(c *Ctx) {
 	// on tees that extend one common parent tee (which itself was built by
 	// extending a tee), each adding branches of its own. Every branch still
 	// receives the full set of the entries logged through the loggers above it.
-	forked := len(cores) >= 2 && g.Chance(4)
+	forked := forkWanted && len(cores) >= 3
 	bases := []*zap.Logger{nil, nil, nil}
 	if forked {
 		var parent zapcore.Core = cores[0]
 		var priv [3][]zapcore.Core
 		for bi := 1; bi < len(branches); bi++ {
-			branches[bi].fork = g.Draw(3)
+			branches[bi].fork = g.Weighted(2, 1, 1)
+			// the last two branches are private, one to each logger
+			if bi >= len(branches)-2 {
+				branches[bi].fork = 1 + (len(branches)-1-bi)
+			}
 			if f := branches[bi].fork; f == 0 {
 				parent = zapcore.NewTee(parent, cores[bi])
 			} else {
